@@ -19,6 +19,7 @@ def apiCtls (parts : List String) : Option (Prio × List Ctl) :=
   | ["delete"] => some (.normal, [.stop, .delete])
   | ["deletenow"] => some (.urgent, [.stop, .delete])
   | ["run", id] => some (.normal, [.func id.toNat!])
+  | ["continue"] => some (.normal, [.continueTGR])
   | ["seterr"] => some (.normal, [.setErr])
   | ["unseterr"] => some (.normal, [.unsetErr])
   | _ => none
